@@ -1,2 +1,8 @@
--- driver stub (not built yet)
-def main : IO Unit := pure ()
+import QmcModel.Proto
+import QmcModel.Sampler
+open Qmc Qmc.Proto
+
+/-! Line-protocol driver for the whole-`timestep` trajectories (`harness/src/bin/fullstep.rs`):
+kinds `ising` and `generic`, see `Qmc.Sampler.Proto.step` (QmcModel/Sampler.lean). -/
+
+def main : IO Unit := run Qmc.Sampler.Proto.step
